@@ -177,6 +177,73 @@ var idlFamilies = []struct {
 
 const maxDepth = 64
 
+// Scale families: the COUNT of a repeated construct taken to the tens of thousands (an
+// IDL file of a few hundred kilobytes): a parser step that rescans what it has seen -
+// quadratic numbering of actions, repeated scope walks - stays far below the time budget
+// at 64 repetitions and far above it here (seed C07-18: automatic action ids found by
+// rescanning from 100 on every action; 23 000 actions: 0.3 s before, 18 s after).
+var scaleSizes = []int{1000, 8000, 30000}
+
+var idlScaleFamilies = []struct {
+	name string
+	f    func(n int) string
+}{
+	{"scale-methods-without-uid", func(n int) string {
+		var sb strings.Builder
+		sb.WriteString("package p\ninterface I\n")
+		for i := 0; i < n; i++ {
+			fmt.Fprintf(&sb, "\tfn f%d(a: int32)\n", i)
+		}
+		sb.WriteString("end\n")
+		return sb.String()
+	}},
+	{"scale-actions-mixed-uid", func(n int) string {
+		var sb strings.Builder
+		sb.WriteString("package p\ninterface I\n")
+		for i := 0; i < n; i++ {
+			switch i % 4 {
+			case 0:
+				fmt.Fprintf(&sb, "\tfn f%d(a: int32) //uid:%d\n", i, 200000+i)
+			case 1:
+				fmt.Fprintf(&sb, "\tsig s%d(a: int32)\n", i)
+			case 2:
+				fmt.Fprintf(&sb, "\tprop p%d(a: int32)\n", i)
+			default:
+				fmt.Fprintf(&sb, "\tfn g%d() -> str\n", i)
+			}
+		}
+		sb.WriteString("end\n")
+		return sb.String()
+	}},
+	{"scale-struct-members", func(n int) string {
+		var sb strings.Builder
+		sb.WriteString("package p\nstruct S\n")
+		for i := 0; i < n; i++ {
+			fmt.Fprintf(&sb, "\tm%d: int32\n", i)
+		}
+		sb.WriteString("end\n")
+		return sb.String()
+	}},
+	{"scale-interfaces", func(n int) string {
+		var sb strings.Builder
+		sb.WriteString("package p\n")
+		n /= 3 // three lines per interface
+		for i := 0; i < n; i++ {
+			fmt.Fprintf(&sb, "interface I%d\n\tfn f(a: int32)\nend\n", i)
+		}
+		return sb.String()
+	}},
+	{"scale-enum-constants", func(n int) string {
+		var sb strings.Builder
+		sb.WriteString("package p\nenum E\n")
+		for i := 0; i < n; i++ {
+			fmt.Fprintf(&sb, "\tc%d = %d\n", i, i)
+		}
+		sb.WriteString("end\n")
+		return sb.String()
+	}},
+}
+
 func lenPrefixed(s string) []byte {
 	e := n()
 	basic.WriteString(s, e)
@@ -210,6 +277,10 @@ func buildGroups(ts []*target, tier string) []*group {
 		// corpus self-check: every item must be accepted
 		if len(t.corpus) > 0 {
 			add(&group{t: t, kind: "corpus", n: len(t.corpus), input: func(i int) []byte { return t.corpus[i].data }, priority: 1})
+		}
+		if len(t.extra) > 0 {
+			add(&group{t: t, kind: "family", label: "hand-built", n: len(t.extra), chunk: len(t.extra), priority: 1,
+				input: func(i int) []byte { return t.extra[i] }})
 		}
 		if t.binary && !t.noByte {
 			k := len(byteAlphabet)
@@ -317,6 +388,11 @@ func buildGroups(ts []*target, tier string) []*group {
 			f := f
 			add(&group{t: t, kind: "family", label: f.name, n: maxDepth, monotone: true, chunk: maxDepth, priority: 0,
 				input: func(i int) []byte { return []byte(f.f(i + 1)) }})
+		}
+		for _, f := range idlScaleFamilies {
+			f := f
+			add(&group{t: t, kind: "family", label: f.name, n: len(scaleSizes), monotone: true, chunk: len(scaleSizes), priority: 0,
+				input: func(i int) []byte { return []byte(f.f(scaleSizes[i])) }})
 		}
 		if tier == "thorough" {
 			// every prefix of the repository's own IDL files (read-only)
